@@ -46,12 +46,19 @@ def describe(ev: Event) -> str:
 def c1_arguments(ctx, res: Result, rule="C1-arg-immutable", only_rels=None) -> int:
     """No function mutates an object that may alias a Circuit/State-typed parameter."""
     n = 0
+    callers = _callers(ctx)
     for fi, p, ts in protected_params(ctx, only_rels):
         s = ctx.eng.summary(fi)
         tr = ("P", p)
         evs = [ev for ev in s.events if any(root(l) == tr for l in ev.locs)]
         n += 1
         inst = f"{fi.qualname}({p}: {'|'.join(ts)})"
+        private = fi.name.startswith("_") and not fi.name.startswith("__") and callers.get(id(fi.node), 0) > 0
+        if evs and private:
+            # a private helper whose job is to fill in an object handed to it: its writes are substituted into the
+            # summaries of its callers and judged there (a public operation that passes its own argument on is reported)
+            res.ok(rule, inst, fi.site(), fi.qualname, f"private helper writes its parameter; judged at its {callers[id(fi.node)]} call site(s) through the callers' summaries")
+            continue
         if not evs:
             res.ok(rule, inst, fi.site(), fi.qualname, "no statement on any path mutates an object that may alias the parameter")
         else:
